@@ -30,45 +30,48 @@ def rle : List String → String
   | [] => "-"
   | x :: rest => "+".intercalate (rleAux rest x 1)
 
-def opName : FOp → String
-  | .create => "created"
-  | .write _ => "written"
-  | .setLen _ => "truncated"
-  | .flush => "flushed"
-  | .syncAll => "synced"
+def opName : MOp → String
+  | .tmp .create => "created"
+  | .tmp (.write _) => "written"
+  | .tmp (.setLen _) => "truncated"
+  | .tmp .flush => "flushed"
+  | .tmp .syncAll => "synced"
+  | .rename => "renamed"
+  | .dirSync => "dirsynced"
 
 def showLen : Option Bytes → String
   | none => "-1"
   | some b => toString b.length
 
+def showDir (d : MetaDir) : String := s!"{showLen d.main.vol}/{showLen d.tmp.vol}:{showHS (load d.main.vol)}"
+
 /-- One `save_hard_state` on the File meta store: what every crash image loads as. -/
-def fileSaveLine (f : File) (h : HS) : String :=
+def fileSaveLine (d : MetaDir) (h : HS) : String :=
   let ops := saveOps h
-  let pts := crashPts f ops
+  let pts := dirCrashPts d ops
   let atPts := (List.range ops.length).filterMap fun k =>
     match pts.find? (fun p => p.1 == Pt.at (k + 1)), ops[k]? with
-    | some (_, s), some op => some s!"{opName op}:{showLen s.vol}:{showHS (load s.vol)}"
+    | some (_, s), some op => some s!"{opName op}:{showDir s}"
     | _, _ => none
   let torn := pts.filterMap fun p => match p.1 with
-    | .torn _ _ => some (showHS (load p.2.vol))
+    | .torn _ _ => some (showHS (load p.2.main.vol))
     | _ => none
-  let fin := save f h
-  ",".intercalate (atPts ++ [s!"ret:{showHS (load fin.vol)}", s!"live:{showHS (some h)}", s!"torn:{rle torn}",
+  let fin := save d h
+  ",".intercalate (atPts ++ [s!"ret:{showDir fin}", s!"live:{showHS (some h)}", s!"torn:{rle torn}",
     s!"bytes:{showHex (enc h)}"])
 
 def fileTags (old : Option HS) (h : HS) : List String :=
   [if old.isNone then "first-save" else "overwrite",
-   if h.vote.isNone then "novote" else "vote"] ++
-  (if old.isSome then ["window-missing"] else [])
+   if h.vote.isNone then "novote" else "vote"]
 
 def modelFile (hs : List HS) : String × List String :=
-  let rec go (f : File) (old : Option HS) : List HS → List String × List String
+  let rec go (d : MetaDir) (old : Option HS) : List HS → List String × List String
     | [] => ([], [])
     | h :: rest =>
-      let (ls, ts) := go (save f h) (some h) rest
-      (fileSaveLine f h :: ls, fileTags old h ++ ts)
-  let (ls, ts) := go File.absent none hs
-  (";".intercalate ([s!"absent:{showHS (load none)}", s!"init:{showHS (load File.absent.vol)}"] ++ ls), ts.eraseDups)
+      let (ls, ts) := go (save d h) (some h) rest
+      (fileSaveLine d h :: ls, fileTags old h ++ ts)
+  let (ls, ts) := go MetaDir.fresh none hs
+  (";".intercalate ([s!"absent:{showHS (load none)}", s!"init:{showHS (load MetaDir.fresh.main.vol)}"] ++ ls), ts.eraseDups)
 
 def modelRocks (hs : List HS) : String × List String :=
   let rec go (r : Rocks) : List HS → List String
@@ -82,15 +85,17 @@ def modelRocks (hs : List HS) : String × List String :=
       line :: go r2 rest
   (";".intercalate (s!"init:{showHS (Rocks.loadRecs [])}" :: go { recs := [], durable := 0 } hs), ["rocks"])
 
-def straceOp : FOp → Option String
-  | .create => some "open[wronly+creat+trunc]"
-  | .write bs => some s!"write[{bs.length}]"
-  | .setLen _ => some "ftruncate"
-  | .flush => none
-  | .syncAll => some "fsync"
+def straceOp : MOp → List String
+  | .tmp .create => ["open:tmp[wronly+creat+trunc]"]
+  | .tmp (.write bs) => [s!"write:tmp[{bs.length}]"]
+  | .tmp (.setLen _) => ["ftruncate:tmp"]
+  | .tmp .flush => []
+  | .tmp .syncAll => ["fsync:tmp"]
+  | .rename => ["rename:tmp>main"]
+  | .dirSync => ["open:dir[rdonly]", "fsync:dir"]
 
 def modelStrace (hs : List HS) : String × List String :=
-  let items := hs.flatMap fun h => (saveOps h).filterMap straceOp
+  let items := hs.flatMap fun h => (saveOps h).flatMap straceOp
   (if items.isEmpty then "no-trace" else ",".intercalate items, ["strace"])
 
 def modelLine (line : String) : String :=
@@ -123,13 +128,12 @@ def splitPart (p : String) : String × String :=
 def rleValues (s : String) : List String :=
   if s == "-" then [] else (s.splitOn "+").map fun x => (x.splitOn "*").headD ""
 
-/-- Judge one save: every image must load as `old` or `new`; the returned image as `new`. First failing rule wins;
-    the recorded defect (F20) is reported last so that any other failure is never hidden behind it. -/
+/-- Judge one save: every image must load as `old` or `new`; the returned image as `new`. First failing rule wins. -/
 def judgeSave (eng : String) (old : String) (new : String) (seg : String) : Option String :=
   let parts := (seg.splitOn ",").map splitPart
   let get (n : String) := (parts.find? (·.1 == n)).map (·.2)
   let imgs : List (String × String) :=
-    parts.filter (fun p => p.1 ∈ ["created", "written", "flushed", "synced", "truncated", "ret"]) ++
+    parts.filter (fun p => p.1 ∈ ["created", "written", "flushed", "synced", "renamed", "dirsynced", "truncated", "ret"]) ++
     ((get "torn").map fun t => (rleValues t).map fun v => ("torn", v)).getD []
   let vals := imgs.map (·.2)
   if seg == "save-err" then some "save-failed"
@@ -137,8 +141,6 @@ def judgeSave (eng : String) (old : String) (new : String) (seg : String) : Opti
   else if get "ret" != some new then some "saved-value-lost-after-process-crash"
   else if get "live" != some new then some "live-load-differs"
   else if vals.any (fun v => v != old && v != new && v != "none") then some "fabricated-state"
-  else if eng == "eng=file" && imgs.any (fun p => p.1 != "created" && p.1 != "torn" && p.2 != old && p.2 != new) then
-    some "missing-outside-truncate-window"
   else if vals.any (fun v => v != old && v != new) then
     some (if eng == "eng=file" then "file-meta-missing-after-truncate" else "rocks-meta-missing")
   else none
